@@ -1,5 +1,6 @@
 import LexgenModel.Proofs.CtxFn
 import LexgenModel.Proofs.MaxMunch
+import LexgenModel.Proofs.CtxLang
 /-!
 # C04 — Right context gates a match without consuming input
 -/
@@ -36,5 +37,24 @@ theorem C04_not_consumed (cfg : Config σ τ ε) (ns : Nat → Option Nat)
     ∃ k e n, Cand cfg s st.iter k a e ∧ st' = { advanceBy cfg.width st k with last := none, done := e, state := n } := by
   obtain ⟨k, e, hc, _, n, hn⟩ := scanPlain_act cfg ns htargets hns s st hlast hdone a st' h
   exact ⟨k, e, n, hc, hn⟩
+
+/-- Language level: the automaton the macro builds for a right context (`new_right_ctx`: Thompson +
+subset construction of the context regex alone) makes the generated context function accept exactly
+when the context regex denotes some prefix of the rest of the input followed by the end-of-input symbol
+— i.e. `$` inside a context sees the end of input, and nothing is consumed. -/
+theorem C04_context_language (cre : Regex) (hp : regexPiecesOK cre) (ht : tailEoi cre) (nfa : NFA)
+    (hn : NFA.new.addRegex cre none 0 = .ok nfa) (d : DFA Nat) (hd : nfaToDfa nfa = some d) (rest : List Nat) :
+    ctxRun d 0 rest = true ↔ CtxLang cre rest :=
+  ctxDfa_lang cre hp ht nfa hn d hd rest
+
+/-- …and in a compiled definition the `j`-th right context of a rule set whose first context has number
+`k` is realised by right-context function number `k + j` (the number stored in the rule's accept entry). -/
+theorem C04_context_numbering (items : LexerDef) (c : Compiled) (h : compileLexer items = .ok c)
+    (name : String) (rs : List RuleOrBinding) (b : Bindings) (k : Nat)
+    (hmem : (name, rs, b, k) ∈ allRuleSets items) :
+    ∃ cres, coreCtxs rs b = some cres ∧ k + cres.length ≤ c.ctxs.length ∧
+      ∀ j (hj : j < cres.length), regexPiecesOK cres[j] → tailEoi cres[j] →
+        ∀ rest, ctxRun (c.ctxs.getD (k + j) []) 0 rest = true ↔ CtxLang cres[j] rest :=
+  compileLexer_ctxs items c h name rs b k hmem
 
 end Lexgen
